@@ -210,6 +210,12 @@ class VSlice(V):
     self.lo, self.hi, self.step = lo, hi, step
 
 
+class VSymList(V):
+  """list of symbolic length n whose element at the generic index i (a z3 Int constant, 0 <= i < n) is elem"""
+  def __init__(self, n, i, elem):
+    self.n, self.i, self.elem = n, i, elem
+
+
 class VSet(V):
   """python set abstracted as membership predicate (z3 array elem -> Bool) + cardinality Int"""
   def __init__(self, mem, card, sort):
